@@ -43,6 +43,6 @@ def run(tier, seed):
 
 
 MANIFEST = {
-    "text": "Each (parser state, option kind, flag combination) of the real cfg_parse_internal()/cfg_setopt() code is executed for one symbolic token from a constructed valid state and compared with a reference transition function of the configuration grammar and store ('=' replaces, '+=' appends, repeated scalar keeps last, multi sections accumulate, repeated title replaces in place / is rejected, single section merges, free-form keys, deprecated/drop, defaults of new instances). SAT verdict per obligation; whole parses by induction.",
+    "text": "Each (parser state, option kind, flag combination) of the real cfg_parse_internal()/cfg_setopt() code is executed for one symbolic token from a constructed valid state and compared with a reference transition function of the configuration grammar and store ('=' replaces, '+=' appends, repeated scalar keeps last, multi sections accumulate, repeated title replaces in place / is rejected, single section merges, free-form keys, deprecated/drop, defaults of new instances). SAT verdict per obligation; whole parses by induction. The getters used for reading back are themselves checked against the stored state for every index (get_step.c); item names that are path keys and free-form sections with declared sub-options have their own step obligations.",
     "note": "One-step lemma from harness-built states through the guarded LIBCONFUSE_VERIF hook; stub lexer; concrete control (state, kind, title match, level), symbolic data; allocation never fails.",
 }
